@@ -65,6 +65,19 @@ def check_line(n, name, k, line, orbits, rep, fname):
         lib_ops = None
     if lib_ops is not None and lib_ops != ops:
         bad("parser-diff", f"library parser yields {lib_ops}, documented grammar yields {ops}")
+    # what the library's own record of this line says (the object every consumer of the table reads)
+    try:
+        info = L.lookup.StabilizerCircuitInfo(n, line)
+        rec = (int(info.graph_id), int(info.cost), int(info.depth), int(info.num_qubits))
+        if rec != (gid, c_cost, c_depth, n):
+            bad("record-diff", f"StabilizerCircuitInfo reports (graph, cost, depth, n) = {rec}, the line says {(gid, c_cost, c_depth, n)}", observed=list(rec), expected=[gid, c_cost, c_depth, n])
+        if (n, name) in coupling.EDGES:
+            got = L.lookup.stabilizer_circuit_lookup(n, name, k)
+            rec2 = (int(got.graph_id), int(got.cost), int(got.depth), str(got.circuit_string))
+            if rec2 != (gid, c_cost, c_depth, comps[3]):
+                bad("lookup-diff", f"stabilizer_circuit_lookup({n}, {name!r}, {k}) returns {rec2[:3]}, line {k} of the file says {(gid, c_cost, c_depth)}")
+    except Exception as e:  # noqa: BLE001
+        bad("record-raised", f"StabilizerCircuitInfo / lookup raised {type(e).__name__}: {e}")
     run_ops = lib_ops if lib_ops is not None else ops
     # state: graph state of the decoded graph, up to signs
     psi = dense.run([(o[0], o[1], ()) for o in run_ops], n)
